@@ -241,8 +241,8 @@ theorem decide_spec {o : Opts} {choice : ID → Bool} {keys : List ID} {ip : IP}
 
 /-! ### the index map covers every pack of the index -/
 
-theorem hdrFold_some (l : List PB) : ∀ (sz : ID → Option Nat) (p : ID),
-    ((sz p).isSome ∨ p ∈ l.map (·.pack)) → ((l.foldl hdrStep sz) p).isSome := by
+theorem hdrFold_some (l : List PB) : ∀ (sz : HdrS) (p : ID),
+    ((sz.f p).isSome ∨ p ∈ l.map (·.pack)) → ((l.foldl hdrStep sz).f p).isSome := by
   induction l with
   | nil => intro sz p h; simpa using h
   | cons pb l ih =>
@@ -305,11 +305,11 @@ theorem packInfo_spec {used : List BlobH} {idx : List PB} {st : Stats} {pi : Pac
       simp only
       refine ⟨fun b hb => (core b hb).2, ?_⟩
       intro pb hpb
-      have h0 : ((ipInit idx) pb.pack).isSome := by
-        unfold ipInit
+      have h0 : ((ipOf (hdrSizes idx)) pb.pack).isSome := by
+        unfold ipOf
         rw [Option.isSome_map]
         exact hdrFold_some idx _ _ (Or.inr (List.mem_map_of_mem hpb))
-      have h2 := pass2Fold_some (countPass used idx) idx { ip := ipInit idx, st := st, hasDup := false } pb.pack h0
+      have h2 := pass2Fold_some (countPass used idx).f idx { ip := ipOf (hdrSizes idx), st := st, hasDup := false } pb.pack h0
       unfold pass23
       simp only
       split
